@@ -42,9 +42,11 @@ var dumpTables = []dumpTable{
 // file name (DBPath(dbFile)).
 //
 // Line formats (every line starts with the table name):
-//   <addresses-table> addr <addrhex>                       one per row
-//   <addresses-table> bal <addrhex> <column> <value>       one per non-zero *_balance column
-//   <other-table> col1=v1 col2=v2 ...                      columns in table order
+//
+//	<addresses-table> addr <addrhex>                       one per row
+//	<addresses-table> bal <addrhex> <column> <value>       one per non-zero *_balance column
+//	<other-table> col1=v1 col2=v2 ...                      columns in table order
+//
 // Values: INTEGER as decimal, REAL with %v, TEXT verbatim, BLOB as lowercase
 // hex, NULL as NULL. Left out: row ids (pn_addresses.id, history_id,
 // holding id) and pn_sync_version.unix_timestamp (wall clock);
